@@ -34,9 +34,9 @@ LEVEL = 'model_checking'
 
 CFGS = {
     'quick': [('Untrusted_quick.cfg', 'chains <= 5 segments, <= 1 unusual spelling (or all alike), 6 embeddings'),
-              ('Untrusted_quick_emb.cfg', 'plain chains <= 4 segments, 24 embeddings, second chain <= 3 segments')],
-    'thorough': [('Untrusted_thorough.cfg', 'chains <= 5 segments, <= 2 unusual spellings (or all alike), 15 embeddings'),
-                 ('Untrusted_thorough_emb.cfg', 'plain chains <= 5 segments, 27 embeddings, second chain <= 3 segments')],
+              ('Untrusted_quick_emb.cfg', 'plain chains <= 4 segments, 41 embeddings (11 with a companion semantic error), second chain <= 3 segments')],
+    'thorough': [('Untrusted_thorough.cfg', 'chains <= 5 segments, <= 2 unusual spellings (or all alike), 22 embeddings (4 with a companion semantic error)'),
+                 ('Untrusted_thorough_emb.cfg', 'plain chains <= 5 segments, 44 embeddings (11 with a companion semantic error), second chain <= 3 segments')],
 }
 
 # ---- workflow renderings: (name, is script position, template of the steps)
@@ -53,6 +53,12 @@ POSITIONS = [
     ('github-script-main', True, '      - uses: actions/github-script@main\n        with:\n          script: "console.log(${{ %s }})"\n'),
     ('github-script-sha', True, '      - uses: actions/github-script@60a0d83039c74a4aee543508d2ffcb1c3799cdea\n        with:\n'
                                 '          script: "console.log(${{ %s }})"\n'),
+    # more placeholders in the same script: clean ones around, and one with a semantic error AFTER the one under
+    # test (a placeholder after a broken one is not analysed by design, so the broken one never comes first)
+    ('run-between-clean-placeholders', True, '      - run: "echo ${{ github.sha }} ${{ %s }} ${{ github.ref }}"\n'),
+    ('run-then-broken-placeholder', True, '      - run: "echo ${{ %s }} ${{ github.c11_nope }}"\n'),
+    ('github-script-then-broken-placeholder', True, '      - uses: actions/github-script@v7\n        with:\n'
+                                                    '          script: "f(${{ %s }}, ${{ steps.nope.outputs.x }})"\n'),
     ('env', False, '      - run: echo "$V"\n        env:\n          V: "${{ %s }}"\n'),
     ('with-other-action', False, '      - uses: actions/checkout@v4\n        with:\n          ref: "${{ %s }}"\n'),
     ('github-script-other-input', False, '      - uses: actions/github-script@v7\n        with:\n          script: "1"\n'
@@ -234,6 +240,8 @@ def ns_render(pos, expr):
     return out
 
 
+# positions whose rendering holds a semantic error of its own: other diagnostics of kind `expression` are expected there
+TOLERANT_POS = {'run-then-broken-placeholder', 'github-script-then-broken-placeholder'}
 SCRIPT_POS = [i for i, p in enumerate(POSITIONS) if p[1]]
 OTHER_POS = [i for i, p in enumerate(POSITIONS) if not p[1]]
 
@@ -382,7 +390,7 @@ def api_violation(fs, it, pred, origin):
                 'with the literal in lower case is handled correctly)'
                 % (it['t'], real, '' if pred is None else ', documented reads %s' % (pred,)))
     else:
-        site = 'api:' + describe(pred, real) if pred is not None else 'api:reports'
+        site = ('api:companion-defect:' if it.get('comp') else 'api:') + (describe(pred, real) if pred is not None else 'reports')
         what = ('expression %r: real reports %s, %s' % (it['t'], real, 'which is not what the declarative definition (A.3) gives'
                 if pred is None else 'the declarative definition (A.3) gives %s' % (pred,)))
     fs.add(site, it['t'], what, {'kind': 'api', 'expr': it['t'], 'real': real, 'expected': pred, 'origin': origin})
@@ -392,9 +400,11 @@ def run(ck, tier):
     sd = vplib.subdir('c11')
     rng = random.Random(vplib.seed())
     fs = Findings()
+    ck.c11_guards = []
     documented = None
-    lint_pool = []          # (text, predicted, api-level real) of applicable vectors
-    n_vec = n_na = n_nontrivial = n_diff = n_drift = 0
+    lint_pool = []          # (text, predicted, api-level real, companion defect?) of applicable vectors
+    n_vec = n_na = n_nontrivial = n_diff = n_drift = n_comp = n_comp_rep = 0
+    comp_classes = {}
     sem_classes = {}
     seen = set()
     for cfg, label in CFGS[tier]:
@@ -421,10 +431,19 @@ def run(ck, tier):
                 raise Inconclusive('the real parser rejects the generated expression %r: %s' % (v['e'], o['perr']))
             if o['other']:
                 raise Inconclusive('untrusted-input message not understood: %r' % o['other'][0])
+            comp = v.get('m', '').startswith('comp-')
             if o.get('panic'):
-                differing.append({'t': v['e'], 'pred': pred})
+                differing.append({'t': v['e'], 'pred': pred, 'comp': comp})
                 continue
-            if o['sem']:
+            if comp:
+                # companion defect: the expression holds a semantic error by construction; it is applicable, the error
+                # must be diagnosed and must not change the untrusted reports
+                if not o['sem']:
+                    raise Inconclusive('companion %s draws no semantic diagnostic in %r: the dimension is vacuous' % (v['m'], v['e']))
+                n_comp += 1
+                n_comp_rep += 1 if pred else 0
+                comp_classes[v['m']] = comp_classes.get(v['m'], 0) + 1
+            elif o['sem']:
                 n_na += 1
                 k = re.sub(r'"[^"]*"', '"_"', o['sem'][0])[:80]
                 sem_classes[k] = sem_classes.get(k, 0) + 1
@@ -434,9 +453,9 @@ def run(ck, tier):
             if pred:
                 n_nontrivial += 1
             if real != pred:
-                differing.append({'t': v['e'], 'pred': pred})
-            if len(lint_pool) < 400000:
-                lint_pool.append((v['e'], pred, real))
+                differing.append({'t': v['e'], 'pred': pred, 'comp': comp})
+            if len(lint_pool) < 400000 or comp:
+                lint_pool.append((v['e'], pred, real, comp))
         del vecs, outs
         # ---- every differing vector is re-run and judged by TLC on the projection of the real AST
         n_diff += len(differing)
@@ -450,7 +469,7 @@ def run(ck, tier):
         confirm_dev(ck, sd, judged, 'confirm-' + os.path.splitext(cfg)[0])
         for it in judged:
             if it['verdict'] in ('violation', 'panic'):
-                if it.get('sem'):
+                if it.get('sem') and not it.get('comp'):
                     continue
                 api_violation(fs, it, it['pred'], cfg)
             else:
@@ -465,6 +484,9 @@ def run(ck, tier):
     ck.cov['not_applicable_semantic_error'] = n_na
     ck.cov['not_applicable_classes'] = dict(sorted(sem_classes.items(), key=lambda kv: -kv[1])[:8])
     ck.cov['vectors_differing_from_prediction'] = n_diff
+    ck.cov['companion_defect_vectors'] = {'total': n_comp, 'with_predicted_report': n_comp_rep, 'per_class': comp_classes}
+    if not n_comp_rep:
+        raise Inconclusive('no vector with a companion semantic error and a predicted report')
     if n_drift:
         ck.cov['model_drift_records'] = n_drift
     if n_na > 0.35 * (n_na + n_vec):
@@ -478,6 +500,9 @@ def run(ck, tier):
     # ---- T: random deep expressions validated by TLC
     trace_part(ck, sd, fs, documented, 6000 if tier == 'quick' else 40000, tier)
     fs.flush(ck)
+    if ck.c11_guards and not fs.by_site:
+        # a coverage guard counts only when nothing was found: a defect that silences all reports is a violation, not a gap
+        raise Inconclusive(ck.c11_guards[0])
     ck.cov['rule'] = ('every state of the TLC generator = one expression (text + predicted reports) run on the real parser and '
                       'semantics checker; evaluations = applicable vectors (no semantic error); non-trivial = at least one '
                       'predicted report; plus workflow renderings in script / non-script positions and random deep expressions '
@@ -485,7 +510,10 @@ def run(ck, tier):
     ck.cov['exhaustive'] = True
     ck.assumptions += [
         'the documented untrusted inputs are the 20 paths of Untrusted.tla (cross-checked against the exported tree at start-up)',
-        'expressions with a semantic error are not applicable (after one the analysis of the placeholder is not guaranteed)',
+        'expressions with an incidental semantic error are not applicable; the designated companion-defect embeddings (comp-*) '
+        'are applicable: a semantic error elsewhere in the expression adds its diagnostic and never removes a report',
+        'a placeholder that follows a placeholder with an error in the same string is not analysed (by design): the broken '
+        'placeholder is only ever placed after the one under test',
         'dereferencing the result of contains/startsWith/endsWith is outside the universe (ill-typed)',
         'positions of the diagnostics are not compared here (C07)',
         'one placeholder per script; matrix is given by an expression so that matrix.x has unknown type',
@@ -542,26 +570,36 @@ def lint_part(ck, sd, fs, rng, pool, limit):
     non = [x for x in pool if not (x[1] or x[2])]
     rng.shuffle(rep)
     rng.shuffle(non)
+    comps = [x for x in rep if x[3]]
     chosen = rep[:limit * 2 // 3] + non[:limit - min(len(rep), limit * 2 // 3)]
+    have = sum(1 for x in chosen if x[3])
+    chosen += comps[::-1][:max(0, limit // 5 - have)]   # companion defects: a fifth of the sample
+    rng.shuffle(chosen)
     cases = []
-    for i, (text, pred, real) in enumerate(chosen):
+    for i, (text, pred, real, comp) in enumerate(chosen):
         # every expression in one script position and two non-script positions (rotating), all positions for the first 200
         idxs = range(len(POSITIONS)) if i < 200 else [SCRIPT_POS[i % len(SCRIPT_POS)]] + \
             [OTHER_POS[(i + k) % len(OTHER_POS)] for k in (0, 3)]
         for j in idxs:
             name, script, tmpl = POSITIONS[j]
-            cases.append({'expr': text, 'pred': pred, 'api': real, 'pos': name, 'script': script, 'src': render(tmpl, text)})
+            cases.append({'expr': text, 'pred': pred, 'api': real, 'pos': name, 'script': script, 'comp': comp,
+                          'src': render(tmpl, text)})
     fi, fo = os.path.join(sd, 'lint_in.jsonl'), os.path.join(sd, 'lint_out.jsonl')
     vplib.write_jsonl(fi, [{'id': i, 'src': c['src']} for i, c in enumerate(cases)])
     vplib.run_harness(['untrusted-lint', fi, fo], timeout=3000)
     outs = vplib.read_jsonl(fo)
-    same_as_api = script_reported = 0
+    same_as_api = script_reported = comp_script_reported = 0
     for c, o in zip(cases, outs):
         if o.get('err'):
             raise Inconclusive('Lint failed on a rendered workflow: %s\n%s' % (o['err'], c['src']))
-        if o['other']:
+        tolerant = c['comp'] or c['pos'] in TOLERANT_POS      # the rendering holds a semantic error of its own
+        if [d for d in o['other'] if not (tolerant and d['kind'] == 'expression')]:
             raise Inconclusive('rendered workflow has unrelated diagnostics: %r in\n%s' % (o['other'][:2], c['src']))
+        if c['comp'] and c['script'] and not o['other']:
+            raise Inconclusive('companion defect draws no diagnostic through Linter.Lint:\n%s' % c['src'])
         got = bag(o['reps'])
+        if c['script'] and c['comp'] and got:
+            comp_script_reported += 1
         if c['script'] and got:
             script_reported += 1
         if c['script']:
@@ -583,9 +621,12 @@ def lint_part(ck, sd, fs, rng, pool, limit):
     ck.cov['lint_renderings'] = len(cases)
     ck.cov['lint_positions'] = [p[0] for p in POSITIONS]
     ck.cov['lint_script_renderings_reported'] = script_reported
+    ck.cov['lint_script_renderings_with_companion_defect_reported'] = comp_script_reported
+    if not comp_script_reported:
+        ck.c11_guards.append('no script rendering with a companion defect was reported')
     ck.cov['lint_renderings_per_position'] = {p[0]: sum(1 for c in cases if c['pos'] == p[0]) for p in POSITIONS}
     if not script_reported:
-        raise Inconclusive('no rendered script position was reported at all: the renderings do not bind to the rule')
+        ck.c11_guards.append('no rendered script position was reported at all: the renderings do not bind to the rule')
     if same_as_api:
         ck.cov['lint_renderings_reproducing_api_level_findings'] = same_as_api
     ck.sample({'workflow': cases[0]['src'], 'position': cases[0]['pos'], 'expected_reports': cases[0]['pred']})
@@ -597,7 +638,7 @@ def lint_nonscript_part(ck, sd, fs, rng, pool, per_pos):
     they are usable where `matrix` is not available.  Other diagnostics at the position (type of a
     number/bool field, template type ...) are tolerated: only the absence of untrusted-input reports is
     demanded.  A probe per position (an undefined property of `github`) shows the position is checked at all."""
-    cand = [x for x in pool if x[2] and x[1] == x[2] and 'matrix' not in x[0]]
+    cand = [x for x in pool if x[2] and x[1] == x[2] and 'matrix' not in x[0] and not x[3]]
     if len(cand) < 50:
         raise Inconclusive('only %d reported expressions without `matrix` to render into non-script positions' % len(cand))
     rng.shuffle(cand)
@@ -607,7 +648,7 @@ def lint_nonscript_part(ck, sd, fs, rng, pool, per_pos):
         cases.append({'pos': pos, 'expr': 'github.c11_probe_undefined', 'probe': True,
                       'src': ns_render(pos, 'github.c11_probe_undefined')})
         for _ in range(per_pos):
-            text, pred, real = cand[k % len(cand)]
+            text, pred, real, _ = cand[k % len(cand)]
             k += 1
             cases.append({'pos': pos, 'expr': text, 'probe': False, 'api': real, 'src': ns_render(pos, text)})
     fi, fo = os.path.join(sd, 'ns_in.jsonl'), os.path.join(sd, 'ns_out.jsonl')
